@@ -122,11 +122,15 @@ type advServer struct {
 	// outstanding after the application announced its last request (noMore) - the response
 	// that would otherwise let the client converge.
 	finalOnly   bool
+	slowSend    atomic.Bool
 	expectTotal atomic.Int64 // set by the application once its last request was queued
 	nRecv       int64        // operations received so far
 }
 
 func (a *advServer) onSend(_ int, m *spb.ModifyRequest) {
+	if a.slowSend.Load() {
+		time.Sleep(150 * time.Microsecond) // a stream that takes its time with every message
+	}
 	a.mu.Lock()
 	defer a.mu.Unlock()
 	if m.Params != nil {
@@ -620,7 +624,40 @@ func runCase(run sink, prun *ev.Run, i int, caseID string) {
 			}
 		}()
 	}
+	pauseResume := violate == "" && i%5 == 2
 	for b := 0; b < nBursts; b++ {
+		if pauseResume && b == 1 {
+			// the application pauses sending, queues a dozen requests, resumes - and while the
+			// held requests are still being handed to the (slow) stream it pauses again, queues
+			// more and resumes again, from another goroutine. Every operation is still sent once.
+			c.StopSending()
+			queueOne := func() {
+				req := &spb.ModifyRequest{}
+				total++
+				op, info := mkOp(r, uint64(total))
+				imu.Lock()
+				infos[op.Id] = info
+				imu.Unlock()
+				req.Operation = append(req.Operation, op)
+				c.Q(req)
+				queuedSeq.Store(uint64(total))
+			}
+			srv.slowSend.Store(true)
+			for k := 0; k < 12; k++ {
+				queueOne()
+			}
+			resumed := make(chan struct{})
+			go func() { c.StartSending(); close(resumed) }()
+			time.Sleep(time.Duration(r.Intn(300)) * time.Microsecond)
+			c.StopSending()
+			for k := 0; k < 5; k++ {
+				queueOne()
+			}
+			c.StartSending()
+			<-resumed
+			srv.slowSend.Store(false)
+			logf("paused, queued 12, resumed; paused again meanwhile, queued 5, resumed")
+		}
 		nReq := 1 + r.Intn(6)
 		for q := 0; q < nReq; q++ {
 			req := &spb.ModifyRequest{}
